@@ -38,21 +38,22 @@ type exchange struct {
 
 // sessionPort drives one real *mqtt.Client sequentially.
 type sessionPort struct {
-	log     *eventLog
-	store   *simStore
-	client  *mqtt.Client
-	dials   []dialPlan
-	prefeed []chunk
-	conns   []*simConn
-	cur     *simConn
-	calls   []*asyncCall
-	exch    []*exchange
-	nextEx  int
-	reader  chan rsResult // non-nil while a ReadSlices call is outstanding
-	lastBig *mqtt.BigMessage
-	oldBuf  int
-	gen     int
-	dead    string
+	log       *eventLog
+	store     *simStore
+	client    *mqtt.Client
+	dials     []dialPlan
+	prefeed   []chunk
+	conns     []*simConn
+	cur       *simConn
+	calls     []*asyncCall
+	exch      []*exchange
+	nextEx    int
+	reader    chan rsResult // non-nil while a ReadSlices call is outstanding
+	lastRsErr error         // what the last ReadSlices returned, for ReadBackoff
+	lastBig   *mqtt.BigMessage
+	oldBuf    int
+	gen       int
+	dead      string
 }
 
 type rsResult struct {
@@ -172,11 +173,14 @@ func (p *sessionPort) dialer(ctx context.Context) (net.Conn, error) {
 
 func (p *sessionPort) config(clean string, m1, m2 string) *mqtt.Config {
 	return &mqtt.Config{
-		Dialer:         p.dialerFor(p.gen),
-		PauseTimeout:   time.Hour,
-		CleanSession:   clean == "1",
-		AtLeastOnceMax: atoi(m1),
-		ExactlyOnceMax: atoi(m2),
+		Dialer:       p.dialerFor(p.gen),
+		PauseTimeout: time.Hour,
+		// ReadBackoff is observed, never waited for
+		ReconnectWaitMin: 3 * time.Second,
+		ReconnectWaitMax: 20 * time.Second,
+		CleanSession:     clean == "1",
+		AtLeastOnceMax:   atoi(m1),
+		ExactlyOnceMax:   atoi(m2),
 	}
 }
 
@@ -324,6 +328,7 @@ func (p *sessionPort) flushParts(extraWaitForTicker bool) ([]string, []string) {
 
 func (p *sessionPort) rsLine(r rsResult) string {
 	var big *mqtt.BigMessage
+	p.lastRsErr = r.err
 	switch {
 	case r.err == nil:
 		return fmt.Sprintf("rs msg %s %s", hexs(r.topic), hexs(r.message))
@@ -388,7 +393,7 @@ func (p *sessionPort) exec(f []string) []string {
 	}
 	if p.client == nil {
 		switch f[0] {
-		case "rs", "readall", "pal", "peo", "call", "quit", "close", "disconnect", "counters":
+		case "rs", "readall", "pal", "peo", "call", "quit", "close", "disconnect", "counters", "txn", "backoff":
 			return []string{"noclient"}
 		}
 	}
@@ -622,6 +627,29 @@ func (p *sessionPort) exec(f []string) []string {
 			p.cur.openGate(o)
 		}
 		return p.flush(nil, true)
+	case "txn":
+		mqtt.VerifSetUnorderedCounter(p.client, uint(atoi(f[1])))
+		return nil
+	case "backoff":
+		if p.reader != nil {
+			return []string{"backoff busy"}
+		}
+		idle := time.Duration(-1)
+		mqtt.VerifBackoffObserver = func(d time.Duration) { idle = d }
+		ch := p.client.ReadBackoff(p.lastRsErr)
+		mqtt.VerifBackoffObserver = nil
+		switch {
+		case ch == nil:
+			return []string{"backoff never"}
+		case idle < 0:
+			select {
+			case <-ch:
+				return []string{"backoff now"}
+			default:
+				return []string{"backoff unobserved"}
+			}
+		}
+		return []string{fmt.Sprintf("backoff %dms", idle.Milliseconds())}
 	case "counters":
 		v := mqtt.VerifCountersOf(p.client)
 		return []string{fmt.Sprintf("ctr acked=%d received=%d completed=%d a1=%d s1=%d a2=%d s2=%d q1=%d q2=%d tx=%d",
